@@ -5,11 +5,15 @@
   correspondence; `isPrint` is strconv.IsPrint through the regenerated table.
   Proved here: cleanliness of the quoting for ALL byte strings, the round trip unquote ∘ quote = id
   for ALL byte strings, and the one-line theorem for whole records (groups at any depth and
-  position). The tokenisation of a whole line into its pairs is decided per generated record by the
-  oracle (tokenizer + strconv.Unquote) — see DESIGN.md.
+  position), and the parse-back of a whole line: a logfmt reader (split at the spaces outside quotes,
+  then at the first '=') finds exactly one `key=value` pair per field, in the order written, groups
+  flattened under dotted keys at any depth, whatever bytes the string values contain
+  (`logfmt_line_parses_back`); each string value then reads back exactly (`quoted_value_parses_back`).
+  The reader model is compared with the oracle's tokenizer on every generated line (`Q tok` probes).
 -/
 import Logg.Lemmas.EncoderClean
 import Logg.Lemmas.QuoteRoundTrip
+import Logg.Lemmas.EncoderLogfmt
 
 namespace Logg.Props.C05
 open Logg Logg.Lemmas
@@ -58,6 +62,57 @@ theorem logfmt_one_line (p : Presentation) (depth : Nat) (r : Record) (out : Byt
 theorem blank_print_is_newline (f : Fmt) (isPrint : Nat → Bool) (p : Presentation) (depth : Nat) (r : Record)
     (hl : r.lvl = Lv.always) (hb : isBlank r.msg = true) : encodeRecord f isPrint p depth r = some [10] := by
   simp [encodeRecord, hl, hb]
+
+/-- (4) **The line parses back.** For every logfmt record (any message, name, severity, attribute list
+    with groups nested to any depth at any position, caller on or off) the reader splits the line into
+    exactly the fields that were logged: `time`, `logger` (if named), `level`, `msg`, one pair per scalar
+    attribute under its dotted key, then the caller fields — in that order, nothing more, nothing less;
+    no value can split a token or forge a pair. Assumed (decidable, checked on every generated record by
+    the harness): keys contain no space, quote or '='; the texts rendered bare by the standard library
+    (floats, complex numbers) contain no space or quote; the timestamp and time texts contain no quote or
+    backslash; only groups are written without their own key. -/
+theorem logfmt_line_parses_back (isPrint : Nat → Bool) (p : Presentation) (depth : Nat) (r : Record) (out : Bytes)
+    (hnb : (r.lvl == Lv.always && isBlank r.msg) = false)
+    (hts : inqB r.ts = true) (hattrs : ∀ a ∈ r.attrs, attrTokOK depth a = true)
+    (h : encodeRecord .logfmt isPrint p depth r = some out) :
+    let c : EncCfg := { fmt := .logfmt, isPrint := isPrint }
+    let fields := logfmtPairs c (p.reg.name r.lvl) depth r
+    ∃ body, out = body ++ [10] ∧ logfmtTokens body = fields.map tokOf ∧
+      (logfmtTokens body).map splitPair = fields.map some := by
+  intro c fields
+  unfold encodeRecord at h
+  rw [hnb] at h
+  simp only [Bool.false_eq_true, ↓reduceIte, Option.some.injEq] at h
+  have hc : LogfmtCfg c := ⟨rfl⟩
+  have htok := plainBody_tokens c hc (p.reg.name r.lvl) depth r hts hattrs
+  refine ⟨_, h.symm, htok, ?_⟩
+  rw [htok, List.map_map]
+  apply List.map_congr_left
+  intro q hq
+  exact splitPair_tokOf q (logfmtPairs_keys c (p.reg.name r.lvl) depth r hattrs q hq)
+
+/-- the value text of every string-like field is the Go-quoted string, which reads back exactly:
+    message, logger name and level name -/
+theorem head_values_read_back (isPrint : Nat → Bool) (hp : PrintSafe isPrint) (levelName : Bytes) (r : Record) :
+    let c : EncCfg := { fmt := .logfmt, isPrint := isPrint }
+    (kMsg, c.quote r.msg) ∈ headPairs c levelName r ∧ goUnquote (c.quote r.msg) = some r.msg ∧
+    goUnquote (c.quote levelName) = some levelName ∧ goUnquote (c.quote r.name) = some r.name := by
+  intro c
+  have hq : ∀ s, c.quote s = goQuote isPrint s := fun s => (⟨rfl⟩ : LogfmtCfg c).quote s
+  refine ⟨by simp [headPairs], ?_, ?_, ?_⟩ <;> (rw [hq]; exact goUnquote_goQuote isPrint hp _)
+
+-- non-vacuity: a record with a forged pair in the message, a space in a value and a nested group
+def exCfg : EncCfg := { fmt := .logfmt, isPrint := fun r => decide (32 ≤ r) && decide (r < 127) }
+def exRec : Record :=
+  { lvl := 5, ts := [49], name := [], msg := [97, 32, 120, 61, 34, 49, 34],
+    attrs := [some ([103], true, Val.group [some ([107], false, Val.str [98, 32, 99]), some ([106], false, Val.int 7)])] }
+example : flatAttrs exCfg 3 [103] [some ([107], false, Val.str [98, 32, 99]), none, some ([106], false, Val.int 7)] =
+    [([103, 46, 107], exCfg.quote [98, 32, 99]), ([103, 46, 106], [55])] := by
+  simp only [flatAttrs, flatVal, dotPrefix, encVal]
+  decide
+example : logfmtTokens [97, 61, 34, 120, 32, 92, 34, 32, 121, 34, 32, 32, 98, 61, 49] = [[97, 61, 34, 120, 32, 92, 34, 32, 121, 34], [98, 61, 49]] ∧
+    splitPair [97, 61, 34, 120, 61, 34] = some ([97], [34, 120, 61, 34]) := by decide
+example : (∀ a ∈ exRec.attrs, attrTokOK 3 a = true) ∧ inqB exRec.ts = true := by decide
 
 -- non-vacuity: a value with a line feed, a quote and an invalid byte (any isPrint that accepts 'a')
 example : goQuote (fun r => r == 97) [97, 10, 34, 255] = [34, 97, 92, 110, 92, 34, 92, 120, 102, 102, 34] := by decide
